@@ -192,8 +192,8 @@ PROPS = {
         assumptions=[
             'DEDUCTIVE (Verus): the zero-copy interface Packetizer::{spare_capacity_mut, bytes_written} against a capacity model of '
             'BytesMut (capacity >= len, reserve, spare_capacity_mut, unsafe set_len): the slice handed out for writing is never '
-            'empty and the buffered bytes and the cached length are untouched -- UNDER the caller protocol that no complete frame '
-            'is waiting (next_message drained first, as the tokio transport does); bytes_written keeps the buffered prefix and the '
+            'empty (unconditionally, since fix b779ce8: this obligation found a genuine defect, see known-findings.txt) and the buffered '
+            'bytes and the cached length are untouched; bytes_written keeps the buffered prefix and the '
             'invariant, given the unsafe contract (len within the spare capacity). What the written bytes ARE is the caller\'s.',
             'DEDUCTIVE (Verus, all stream lengths, all chunkings): Packetizer::{new, extend_from_slice, next_message} on their '
             'verbatim text against the framing written from the statement (first_frame / frames): next_message hands out exactly '
